@@ -223,7 +223,7 @@ def c04(tier, seed):
         "assumptions": ["get_abi: every u32 CXCallingConv value (loop-free, full domain)",
                         "FunctionSig::abi: the ABI emitted is the --override-abi match if any, else what clang reported, or an error; never something else",
                         "argument lowering: array parameters decay to a pointer to the element (const iff element or array is const), ObjC interface pointers are named, everything else keeps its type; return lowering: noreturn -> !, void (through typedefs) -> (), else the type. The type tokens themselves (to_rust_ty_or_opaque) are uninterpreted",],
-        "unverified": ["cursor_mangling / mangled names from libclang; link_name omission (utils::names_will_be_identical_after_mangling: byte-string code); TryToRustTy for pointers/function pointers (seed S17 missed); fnsig_arguments_iter naming; Method::codegen_method; merge_extern_blocks (seed S06 missed); ABI classification by rustc/LLVM vs clang"],
+        "unverified": ["cursor_mangling / mangled names from libclang; link_name omission (utils::names_will_be_identical_after_mangling: byte-string code); TryToRustTy for pointers/function pointers (seed S16 missed); fnsig_arguments_iter naming; Method::codegen_method; merge_extern_blocks (seed S06 missed); ABI classification by rustc/LLVM vs clang"],
     }, extra_obs=extra)
 
 
